@@ -65,6 +65,12 @@ CLAIMED["C19"] = dict(
    text="Round trip: generated styled segments printed in truecolor are decoded with AnsiDecoder and compared per line and per character. Redirection: generated streams of SGR/OSC-8 coded lines (from an independent encoder) are cut into write() calls at arbitrary offsets, interleaved with flushes, fed to FileProxy and to sys.stdout under a Live; the console output must decode to the same (char, attrs, fg, bg, link) sequence, each complete line exactly once and in order, one new line per non-empty flush.",
    note="Flushes do not fall inside an escape sequence; lines <= 150 cells on a 200-cell console; SGR and OSC-8 only; attributes compared as the set that is on.",
    ref="5 C19")
+CLAIMED["C15"] = dict(
+   technique="Hypothesis history testing with a twin console: exports compared with the file stream decoded by an independent SGR/OSC-8 interpreter; capture compared with the twin's writes",
+   level="exploration",
+   text="Generated histories of print/log/rule/line/control/capture/export operations run on a recording console and on a twin with the same configuration; at every export the plain text export, the HTML export (tags removed, entities decoded) and the styled export (decoded) are compared with the visible text written to the file since the last clearing export, clear/no-clear semantics are checked by repeated exports, and capture blocks must leave the file untouched and return exactly what the twin wrote.",
+   note="Record-vs-file comparison is suspended between a capture block and the next clearing export (captured text is also recorded in this version); log() uses log_path=False and a generated clock.",
+   ref="5 C15")
 NOT_YET = {}
 props = [json.loads(l) for l in open(os.path.join(V, "properties.jsonl"))]
 checks = []
